@@ -1507,6 +1507,14 @@ def np_ptp(interp, a, **k):
     return p
 
 
+@_np('isclose')
+def np_isclose(interp, a, b, rtol=Fraction(1, 10 ** 5), atol=Fraction(1, 10 ** 8), **k):
+    f = lambda x, y: _sabs(x - y) <= atol + rtol * _sabs(y)
+    if isinstance(a, SArr) or isinstance(b, SArr):
+        return A.elementwise2(a, b, f, '==')
+    return f(a, b)
+
+
 @_np('iscomplexobj')
 def np_iscomplexobj(interp, a):
     if isinstance(a, SArr):
